@@ -111,6 +111,7 @@ handshakeLoop:
 		if err != nil {
 			return err
 		}
+		vtraceRx(g.timeoutManager, b)
 
 		switch msg.(type) {
 		case *PacketSYN:
@@ -175,6 +176,7 @@ handshakeLoop:
 		case <-time.After(g.timeoutManager.GetHandshakeTimeout()):
 			g.log.Debugf("SYNCACK resendTimeout. Abort and wait " +
 				"for client to re-initiate")
+			vtrace(g.timeoutManager, "hsTimeout")
 			resent = true
 
 			continue
@@ -191,6 +193,7 @@ handshakeLoop:
 		if err != nil {
 			return err
 		}
+		vtraceRx(g.timeoutManager, b)
 
 		switch msg.(type) {
 		case *PacketSYNACK:
